@@ -81,8 +81,18 @@ func GenerateRules(t *rapid.T, id string, avoid map[string]string) *Schema {
 		// a discriminated oneof (not flattened) next to the ruled fields: the message schema is then assembled by
 		// another builder, which must publish the same constraints and required list
 		req.Oneofs = []*Oneof{{Name: "content", Discriminator: "kind"}}
-		req.Fields = append(req.Fields, &Field{Name: "note_text", Number: 90, Kind: KString, Card: Singular, Oneof: "content"},
-			&Field{Name: "note_code", Number: 91, Kind: KInt32, Card: Singular, Oneof: "content"})
+		nt := &Field{Name: "note_text", Number: 90, Kind: KString, Card: Singular, Oneof: "content"}
+		nc := &Field{Name: "note_code", Number: 91, Kind: KInt32, Card: Singular, Oneof: "content"}
+		// rules on the members themselves: they are published inside the variant branches
+		if g.bool("member_text_rule") {
+			g.stringRules(nt)
+			g.tagf("rule:on_oneof_member")
+		}
+		if g.bool("member_code_rule") {
+			g.numericRules(nc)
+			g.tagf("rule:on_oneof_member")
+		}
+		req.Fields = append(req.Fields, nt, nc)
 		g.tagf("shape:discriminated_oneof")
 	}
 	m := &Method{Name: "Check", Input: pkg + ".CheckRequest", Output: pkg + ".CheckResponse", HasConfig: true, Path: "/check", Verb: 2}
